@@ -244,6 +244,37 @@ def configurations(tier, seed):
                     spatial=True, note={"w": "tuple of 2 scalars", "v": "vector argument of shape (2,)"}))
     cfgs.append(Cfg("f_listtensor", s1 * s2 * s2, as_vector([s1, s2]), vv, {s1: vv[0], s2: vv[1]},
                     note={"w": "as_vector([s1, s2])", "v": "vector argument"}))
+    # tuples / list tensors / components of SEVERAL coefficients listed in every order (the pairing of
+    # coefficients with directions must not depend on creation order); same-shaped members
+    import itertools
+    s3 = sc(())
+    c1, c2, c3 = sc(()), sc(()), sc(())           # coefficient directions
+    Fs3 = s1 * s2 * s2 + s3 * s3 * s3 * s1 + inner(grad(s1), grad(s2)) * s3
+    mem = [(s1, c1), (s2, c2), (s3, c3)]
+    for k, perm in enumerate(itertools.permutations(mem)):
+        if k == 0:
+            continue                                  # creation order: covered above
+        ws, ds = tuple(m[0] for m in perm), tuple(m[1] for m in perm)
+        cfgs.append(Cfg(f"f_perm3_{k}", Fs3, ws, ds, {a: b for a, b in perm}, spatial=True,
+                        note={"w": "tuple of 3 scalars, order " + "".join(str(mem.index(m)) for m in perm),
+                              "v": "tuple of coefficients"}))
+    cfgs.append(Cfg("f_perm2_args", s1 * s2 * s2 + inner(grad(s1), grad(s2)), (s2, s1), (vv[0], vv[1]),
+                    {s2: vv[0], s1: vv[1]}, spatial=True,
+                    note={"w": "(s2, s1): reverse creation order", "v": "(v[0], v[1])"}))
+    cfgs.append(Cfg("f_perm2_shape_n", s1 * s2 * s2 + s1, (s2, s1), vv, {s2: vv[0], s1: vv[1]},
+                    note={"w": "(s2, s1): reverse creation order", "v": "vector argument of shape (2,)"}))
+    cfgs.append(Cfg("f_perm2_listtensor", s1 * s2 * s2 + s1, as_vector([s2, s1]), vv, {s2: vv[0], s1: vv[1]},
+                    note={"w": "as_vector([s2, s1])", "v": "vector argument"}))
+    dv1, dv2 = sc((2,)), sc((2,))
+    cfgs.append(Cfg("f_perm2_vec", inner(wv, hv) * wv[0] + inner(grad(hv), grad(hv)), (hv, wv), (dv1, dv2),
+                    {hv: dv1, wv: dv2}, spatial=True,
+                    note={"w": "(h, w): two vectors in reverse creation order", "v": "coefficients"}))
+    cfgs.append(Cfg("f_perm_comp", wv[1] * hv[0] * hv[0] + wv[0] * hv[1] + grad(hv)[0, 1] * wv[1], (hv[0], wv[1]), (c1, c2),
+                    {hv: as_vector([c1, 0]), wv: as_vector([0, c2])}, spatial=True,
+                    note={"w": "(h[0], w[1]): components of two coefficients, reverse creation order"}))
+    cfgs.append(Cfg("f_perm_comp2", wv[1] * hv[0] * wv[0] + hv[1], (hv[0], wv[1], wv[0]), (c1, c2, c3),
+                    {hv: as_vector([c1, 0]), wv: as_vector([c3, c2])},
+                    note={"w": "(h[0], w[1], w[0]): components, mixed order"}))
     # G. mixed element ---------------------------------------------------------------------------
     W = mixed_space()
     wm = ufl.Coefficient(W)
